@@ -47,9 +47,30 @@ def budget(tier):
     return 1500 if tier == "quick" else 60000
 
 
+# IUPAC nucleotide codes and their complements (written out here, independent of gfapy.sequence.WCC)
+IUPAC = {"A": "T", "C": "G", "G": "C", "T": "A", "R": "Y", "Y": "R", "K": "M", "M": "K", "S": "S", "W": "W",
+         "B": "V", "V": "B", "D": "H", "H": "D", "N": "N"}
+IUPAC.update({k.lower(): v.lower() for k, v in list(IUPAC.items())})
+
+
+def rc(seq):
+    return "".join(IUPAC[c] for c in reversed(seq))
+
+
 def gen_case(rng, tier, i):
     c = G.gen_graph(rng, tier)
     c["vlevel"] = rng.choice([0, 1, 1, 1, 2, 3])
+    if rng.random() < 0.4:
+        # ambiguity codes and lower case in the sequences (same lengths): the reverse complement of every code matters
+        codes = "RYKMSWBVDHNacgtrykmswbvdhn"
+        out = []
+        col = 2 if c["version"] == "gfa1" else 3
+        for l in c["lines"]:
+            f = l.split("\t")
+            if f[0] == "S" and len(f) > col and f[col] != "*":
+                f[col] = "".join(rng.choice(codes) if rng.random() < 0.5 else ch for ch in f[col])
+            out.append("\t".join(f))
+        c["lines"] = out
     return c
 
 
@@ -215,7 +236,7 @@ def _oracle(case):
         for i, (s, e) in enumerate(q):
             seg = d0.segs[s]
             sq = seg["seq"]
-            seqs.append(None if sq is None else (sq if e == "R" else G.rc(sq)))
+            seqs.append(None if sq is None else (sq if e == "R" else rc(sq)))
             lens.append(seg["len"])
             if i:
                 j = frozenset(((q[i - 1][0], q[i - 1][1]), (s, G.OTHER_END[e])))
